@@ -5,6 +5,7 @@ package main
 import (
 	"fmt"
 	"go/token"
+	"go/types"
 	"os"
 	"strings"
 
@@ -168,22 +169,44 @@ func runC06(c *Ctx) {
 		adv := 0
 		for _, in := range findU(R, func(in ssa.Instruction) bool { return r.isStoreTo(in, r.head) }) {
 			st := in.(*ssa.Store)
-			b, ok := origin(st.Val).(*ssa.BinOp)
-			if !ok || b.Op != token.ADD || !r.isLoad(b.X, r.head) {
-				continue
-			}
-			if k, isC := constInt(b.Y); isC && k == 1 {
-				continue // header byte steps
-			}
-			adv++
-			o.Site(in.Pos(), "head += %s", b.Y.Name())
-			if b.Y != countVal && !(isConvOf(b.Y, countVal)) {
-				o.Fail(in.Pos(), "head is advanced by %s, not by the decoded packet length: a short read would leave the rest of the packet to be parsed as the next header", b.Y.Name())
-			}
-			for _, l := range hdrLoads {
-				if !domU(l, in) {
-					o.Fail(in.Pos(), "head is advanced before both header bytes were read")
+			// a skip helper called once for the header and once for the packet: each call on its own
+			sites := []ssa.Instruction{nil}
+			if h := in.Parent(); isPrivateHelper(h) && len(curSites.sites[h]) > 1 {
+				sites = nil
+				for _, s := range curSites.sites[h] {
+					if isIn(s.Parent(), R) {
+						sites = append(sites, s)
+					}
 				}
+			}
+			for _, site := range sites {
+				withSite(site, func() {
+					b, ok := origin(st.Val).(*ssa.BinOp)
+					if ok && b.Op == token.REM && isLenOf(b.Y, func(v ssa.Value) bool { return r.isLoad(v, r.data) }) {
+						b, ok = origin(b.X).(*ssa.BinOp) // head = (head + n) % len(data)
+					}
+					if !ok || b.Op != token.ADD || !r.isLoad(b.X, r.head) {
+						return
+					}
+					by := origin(b.Y)
+					if k, isC := constInt(by); isC && (k == 1 || k == 2) {
+						return // header steps
+					}
+					adv++
+					o.Site(in.Pos(), "head += %s", by.Name())
+					if !sameOrigin(by, countVal) && !(isConvOf(by, countVal)) {
+						o.Fail(in.Pos(), "head is advanced by %s, not by the decoded packet length: a short read would leave the rest of the packet to be parsed as the next header", by.Name())
+					}
+					for _, l := range hdrLoads {
+						at := ssa.Instruction(in)
+						if site != nil {
+							at = site
+						}
+						if !domU(l, at) {
+							o.Fail(in.Pos(), "head is advanced before both header bytes were read")
+						}
+					}
+				})
 			}
 		}
 		if adv != 1 {
@@ -358,6 +381,13 @@ func runC06(c *Ctx) {
 					if sv := w.lin(st.Val); sv.OK && sv.eq(linConst(0)) && haveWrap {
 						w.mem[headKey] = lastWrapOf.add(Lf, -1)
 					}
+					if bo, ok := strip(pt.valueAt(st.Val, idx)).(*ssa.BinOp); ok && bo.Op == token.REM &&
+						isLenOf(pt.valueAt(bo.Y, idx), func(v ssa.Value) bool { return r.isLoad(pt.valueAt(v, idx), r.data) }) {
+						// head = x % len(data): congruent to x and back in range
+						if x := w.lin(bo.X); x.OK {
+							w.mem[headKey] = x
+						}
+					}
 				}
 				if h := helperCallee(in); h != nil && idx+1 < len(pt.Instrs) && pt.Instrs[idx+1].Parent() == h {
 					stack = append(stack, in.(*ssa.Call))
@@ -409,7 +439,7 @@ func runC06(c *Ctx) {
 
 	// R6 wrap after every advance
 	for _, f := range []*ssa.Function{W, R} {
-		o = c.Obl("R6", fname(f), "after every advance of head/tail the index is compared (freshly loaded) with len(data) and wrapped before it is used or the lock is released", 2)
+		o = c.Obl("R6", fname(f), "after every advance of head/tail the index is compared (freshly loaded) with len(data) and wrapped before it is used or the lock is released", 1)
 		for _, field := range []string{r.head, r.tail} {
 			for _, in := range findU(f, func(in ssa.Instruction) bool { return r.isStoreTo(in, field) }) {
 				st := in.(*ssa.Store)
@@ -615,7 +645,19 @@ func (r *bufRoles) headerWriteShifts(W *ssa.Function, packet *ssa.Parameter) ([]
 			continue
 		}
 		var out []int64
+		encoded := map[ssa.Value][]int64{} // local array -> shifts of its bytes (encoding/binary)
 		for idx, in := range pth.Instrs {
+			if cl, sh := binaryCodecCall(in, "PutUint16"); cl != nil && len(cl.Call.Args) == 3 {
+				if arr := arrayOfSlice(pth.valueAt(cl.Call.Args[1], idx)); arr != nil {
+					v := strip(pth.valueAt(cl.Call.Args[2], idx))
+					if isLenOf(v, func(x ssa.Value) bool { return sameOrigin(pth.valueAt(x, idx), ssa.Value(packet)) }) {
+						encoded[arr] = sh
+					} else {
+						encoded[arr] = []int64{-1, -1}
+					}
+				}
+				continue
+			}
 			st, ok := in.(*ssa.Store)
 			if !ok {
 				continue
@@ -626,6 +668,29 @@ func (r *bufRoles) headerWriteShifts(W *ssa.Function, packet *ssa.Parameter) ([]
 			pos = st.Pos()
 			v := strip(pth.valueAt(st.Val, idx))
 			isPkt := func(x ssa.Value) bool { return sameOrigin(pth.valueAt(x, idx), ssa.Value(packet)) }
+			// byte k of an array encoded by encoding/binary (for _, v := range hdr)
+			{
+				var arrV, ixV ssa.Value
+				switch e := v.(type) {
+				case *ssa.Index:
+					arrV, ixV = e.X, e.Index
+				case *ssa.UnOp:
+					if ia, ok := e.X.(*ssa.IndexAddr); ok && e.Op == token.MUL {
+						arrV, ixV = ia.X, ia.Index
+					}
+				}
+				if arrV != nil {
+					if ld, ok := arrV.(*ssa.UnOp); ok && ld.Op == token.MUL {
+						arrV = ld.X // a copy of the array taken after it was encoded
+					}
+					if sh, ok := encoded[arrV]; ok {
+						if k, okk := pth.evalInt(ixV, idx, 0); okk && k >= 0 && int(k) < len(sh) {
+							out = append(out, sh[k])
+							continue
+						}
+					}
+				}
+			}
 			if b, ok := v.(*ssa.BinOp); ok && b.Op == token.SHR {
 				if k, ok := constInt(b.Y); ok && isLenOf(b.X, isPkt) {
 					out = append(out, k)
@@ -637,6 +702,9 @@ func (r *bufRoles) headerWriteShifts(W *ssa.Function, packet *ssa.Parameter) ([]
 				continue
 			}
 			out = append(out, -1)
+		}
+		if len(out) == 0 {
+			out = r.codecWriteShifts(pth, packet, &pos)
 		}
 		if !have {
 			first, have = out, true
@@ -653,6 +721,183 @@ func (r *bufRoles) headerWriteShifts(W *ssa.Function, packet *ssa.Parameter) ([]
 		}
 	}
 	return first, pos
+}
+
+// binaryCodecCall: a call of encoding/binary's ByteOrder method name (PutUint16 / Uint16) on one of the two
+// fixed orders; shifts are those of the first and second byte.
+func binaryCodecCall(in ssa.Instruction, name string) (call *ssa.Call, shifts []int64) {
+	cl, ok := in.(*ssa.Call)
+	if !ok {
+		return nil, nil
+	}
+	sc := cl.Call.StaticCallee()
+	if sc == nil || sc.Pkg == nil || sc.Pkg.Pkg.Path() != "encoding/binary" || sc.Name() != name || sc.Signature.Recv() == nil {
+		return nil, nil
+	}
+	switch typeName(sc.Signature.Recv().Type()) {
+	case "binary.bigEndian", "encoding/binary.bigEndian", "bigEndian":
+		return cl, []int64{8, 0}
+	case "binary.littleEndian", "encoding/binary.littleEndian", "littleEndian":
+		return cl, []int64{0, 8}
+	}
+	return nil, nil
+}
+
+// arrayOfSlice: the local array a[:] slices.
+func arrayOfSlice(v ssa.Value) ssa.Value {
+	for d := 0; d < 6; d++ {
+		switch x := v.(type) {
+		case *ssa.Slice:
+			v = x.X
+			continue
+		case *ssa.ChangeType:
+			v = x.X
+			continue
+		}
+		break
+	}
+	if a, ok := v.(*ssa.Alloc); ok {
+		if pt, ok := a.Type().Underlying().(*types.Pointer); ok {
+			if _, isArr := pt.Elem().Underlying().(*types.Array); isArr {
+				return a
+			}
+		}
+	}
+	return nil
+}
+
+// codecWriteShifts: the header is encoded into a local 2-byte array by encoding/binary and that array is the
+// first thing copied into the ring on the path.
+func (r *bufRoles) codecWriteShifts(pth *upath, packet *ssa.Parameter, pos *token.Pos) []int64 {
+	type enc struct {
+		arr    ssa.Value
+		shifts []int64
+	}
+	var encs []enc
+	for idx, in := range pth.Instrs {
+		if cl, sh := binaryCodecCall(in, "PutUint16"); cl != nil && len(cl.Call.Args) == 3 {
+			arr := arrayOfSlice(pth.valueAt(cl.Call.Args[1], idx))
+			v := strip(pth.valueAt(cl.Call.Args[2], idx))
+			isPkt := func(x ssa.Value) bool { return sameOrigin(pth.valueAt(x, idx), ssa.Value(packet)) }
+			if arr != nil && isLenOf(v, isPkt) {
+				encs = append(encs, enc{arr, sh})
+			} else if arr != nil {
+				encs = append(encs, enc{arr, []int64{-1, -1}})
+			}
+			continue
+		}
+		if isCall(in, "builtin.copy") && r.isRingWrite(in) {
+			*pos = in.Pos()
+			src := arrayOfSlice(pth.valueAt(in.(*ssa.Call).Call.Args[1], idx))
+			for k := len(encs) - 1; k >= 0; k-- {
+				if src != nil && encs[k].arr == src {
+					return encs[k].shifts
+				}
+			}
+			return []int64{-1} // the first bytes that enter the ring are not an encoded length
+		}
+	}
+	return nil
+}
+
+// codecReadShifts: the length is decoded by encoding/binary from a local array filled from the ring at head.
+func (r *bufRoles) codecReadShifts(R *ssa.Function) (shifts []int64, count ssa.Value, loads []ssa.Instruction) {
+	var dec *ssa.Call
+	n := 0
+	for _, in := range findU(R, func(in ssa.Instruction) bool { c, _ := binaryCodecCall(in, "Uint16"); return c != nil }) {
+		dec, shifts = binaryCodecCall(in, "Uint16")
+		n++
+	}
+	if n != 1 || len(dec.Call.Args) != 2 {
+		return nil, nil, nil
+	}
+	paths, ok := enumIterPathsU(R, 50000)
+	if !ok {
+		return nil, nil, nil
+	}
+	seen := false
+	for pi := range paths {
+		pth := &paths[pi]
+		ci := pth.indexOf(dec)
+		if ci < 0 {
+			continue
+		}
+		seen = true
+		arr := arrayOfSlice(pth.valueAt(dec.Call.Args[1], ci))
+		if arr == nil {
+			return nil, nil, nil
+		}
+		filled := false
+		fills, steps := int64(0), int64(0)
+		for idx, in := range pth.Instrs[:ci] {
+			if r.isStoreTo(in, r.head) && !filled {
+				if d, ok := r.fieldDelta(in, r.head); ok && d == 1 && fills > 0 {
+					steps++ // byte by byte: the head steps once per byte fetched
+					continue
+				}
+				if k, isC := constInt(in.(*ssa.Store).Val); isC && k == 0 && fills > 0 {
+					continue // wrap of a byte step (C06.R6 checks the test)
+				}
+				return []int64{-1, -1}, nil, nil // head moves before the header is fetched
+			}
+			if st, isSt := in.(*ssa.Store); isSt {
+				// hdr[k] = data[head], k counted along the unrolled loop
+				if ia, ok := st.Addr.(*ssa.IndexAddr); ok && ia.X == arr {
+					k, okk := pth.evalInt(ia.Index, idx, 0)
+					ld, _ := strip(pth.valueAt(st.Val, idx)).(*ssa.UnOp)
+					var src *ssa.IndexAddr
+					if ld != nil && ld.Op == token.MUL {
+						src, _ = ld.X.(*ssa.IndexAddr)
+					}
+					if !okk || k != fills || steps != fills || src == nil || !r.isLoad(src.X, r.data) || !r.isLoad(src.Index, r.head) {
+						return []int64{-1, -1}, nil, nil
+					}
+					fills++
+					if fills == 2 {
+						filled = true
+					}
+				}
+				continue
+			}
+			if !isCall(in, "builtin.copy") {
+				continue
+			}
+			args := in.(*ssa.Call).Call.Args
+			if arrayOfSlice(pth.valueAt(args[0], idx)) != arr {
+				continue
+			}
+			// the first fill comes from the ring at head
+			if !filled {
+				sl, _ := strip(pth.valueAt(args[1], idx)).(*ssa.Slice)
+				if sl == nil || !r.isLoad(sl.X, r.data) || sl.Low == nil || !r.isLoad(sl.Low, r.head) {
+					return []int64{-1, -1}, nil, nil
+				}
+			}
+			filled = true
+		}
+		if !filled {
+			return []int64{-1, -1}, nil, nil
+		}
+	}
+	if !seen {
+		return nil, nil, nil
+	}
+	var cur ssa.Value = dec
+	for {
+		var nx ssa.Value
+		if refs := cur.Referrers(); refs != nil {
+			for _, r2 := range *refs {
+				if cv, ok := r2.(*ssa.Convert); ok {
+					nx = cv
+				}
+			}
+		}
+		if nx == nil {
+			break
+		}
+		cur = nx
+	}
+	return shifts, cur, []ssa.Instruction{dec}
 }
 
 // headerReadShifts: loads of single ring bytes at head in Read (dominance order) and the shifts with which they enter the decoded length.
@@ -676,7 +921,7 @@ func (r *bufRoles) headerReadShifts(R *ssa.Function) (shifts []int64, count ssa.
 		}
 	}
 	if len(lds) != 2 {
-		return nil, nil, nil
+		return r.codecReadShifts(R)
 	}
 	// find the OR/ADD combining both
 	shiftOf := func(ld *ssa.UnOp) (int64, ssa.Value) {
